@@ -36,6 +36,8 @@ TERMINALS = (("Alpha", "A", "count_alpha"), ("Capitalization", "C", "count_alpha
 
 import loader_tie as _loader_tie
 TRUSTED = TRUSTED + [_loader_tie.TRUSTED]
+import loader2_tie as _loader2_tie
+TRUSTED = TRUSTED + [_loader2_tie.TRUSTED]
 
 
 def mem_omen(rec):
@@ -571,6 +573,9 @@ def run(ctx):
     # second tie to the source (translator): the readers re-translated from the Python text equal the model readers
     import loader_tie
     corr.append(loader_tie.obligation())
+    # ... and the remaining readers (OMEN files for guesser and scorer, the walk over config.ini)
+    import loader2_tie
+    corr += loader2_tie.obligations("C07")
     known_expl = all(("U+2029" in b or "omen-scorer" in b) for b in [x["sig"] for x in vio]) if vio else False
     return {"evaluations": dist["runs"] * 4 + sum(dist["corrupted_files"].values()) * 2, "distinct_nontrivial": nontrivial, "rule": rule,
             "samples": samples, "corr": corr, "violations": vio, "dist": dist, "corr_explained_by_known": known_expl}
